@@ -2,6 +2,7 @@ package main
 
 import (
 	"bytes"
+	"strings"
 	"strconv"
 
 	kgzip "github.com/klauspost/compress/gzip"
@@ -57,7 +58,20 @@ func genUnmarshalCases(r *rng, n int, emit func(string, ...string), forceOpts fu
 			stat("unm-class", "clean+tail")
 		case k < 6: // leading junk
 			g.declare(sub, false)
-			data = append([]byte(pick(sub, []string{"\r\n", "xx", "\n", "WARC", "junk junk "})), g.serialize()...)
+			junk := pick(sub, []string{"\r\n", "xx", "\n", "WARC", "junk junk ", "\x1f", "ab\x1f", "\x1f\x1f", "\x8b\x1f", "junk\x1fjunk", strings.Repeat("j", 62) + "\x1f", strings.Repeat("j", 63)})
+			rec := g.serialize()
+			if sub.chance(1, 3) {
+				// junk in front of a gzip member: a read chunk may split the two magic bytes
+				var zb bytes.Buffer
+				zw := kgzip.NewWriter(&zb)
+				_, _ = zw.Write(rec)
+				_ = zw.Close()
+				rec = zb.Bytes()
+			}
+			data = append([]byte(junk), rec...)
+			if sub.chance(1, 4) {
+				data = append(data, pick(sub, []string{"\x1f", "zz\x1f", "\x1f\x8b"})...)
+			}
 			stat("unm-class", "junk+clean")
 		case k < 7: // hostile Content-Length
 			g.declare(sub, false)
